@@ -577,6 +577,9 @@ func checkC10(t *testing.T, env *report.Env, rep *report.Report) {
 		{"fileclient empty-valued secret is absent", func() (setec.StoreConfig, error) {
 			return setec.StoreConfig{Client: fcl(), Secrets: []string{"e"}}, nil
 		}, true},
+		{"fileclient one missing, but a cache holds it (a cache entry comes first, whatever the client is)", func() (setec.StoreConfig, error) {
+			return setec.StoreConfig{Client: fcl(), Secrets: []string{"a", "zz"}, Cache: &HCache{Data: []byte(`{"a":{"secret":{"Value":"` + b64("cached-a") + `","Version":2},"lastAccess":"5"},"zz":{"secret":{"Value":"` + b64("cached-zz") + `","Version":1},"lastAccess":"5"}}`)}}, nil
+		}, false},
 		{"nil client", func() (setec.StoreConfig, error) { return setec.StoreConfig{Secrets: []string{"a"}}, nil }, true},
 		{"no secrets, no lookup", func() (setec.StoreConfig, error) { return setec.StoreConfig{Client: fcl()}, nil }, true},
 		{"no secrets, lookup allowed", func() (setec.StoreConfig, error) { return setec.StoreConfig{Client: fcl(), AllowLookup: true}, nil }, false},
